@@ -777,8 +777,8 @@ c.cover("default-size", "is_none(max_workers)")
 
 c = M.contract("_CallItem.__init__", props=["C15", "C03"])
 c.param("self", T.Ref("_CallItem")).param("work_id", T.Int).param("fn", T.Obj).param("args", T.Obj).param("kwargs", T.Obj)
-c.ensures("callitem/carries-the-task-and-the-pickler-in-force",
-          "self.work_id == work_id and self.fn is fn and self.args is args and self.kwargs is kwargs and "
+c.ensures("callitem/carries-the-task", "self.work_id == work_id and self.fn is fn and self.args is args and self.kwargs is kwargs")
+c.ensures("callitem/records-the-pickler-in-force-at-submission",
           "log_count('call:get_loky_pickler_name') == 1 and self.loky_pickler == log_arg('call:get_loky_pickler_name', 0, 0)")
 c.raises_only("callitem/no-exception")
 c.modifies("self.work_id", "self.fn", "self.args", "self.kwargs", "self.loky_pickler")
